@@ -241,3 +241,85 @@ def render_node_contract(prop, sfx, bound, replay_code):
         c.assume_note("context.copy is summarised here (its isolation and carry contracts are C15's and C06's own copy contracts); the partial's body is an arbitrary callee")
         c.replay("code", code=replay_code())
     return rn
+
+
+# ---- IncludeNode.render_to_output*: the included template renders in the CALLER's context (C14:
+# ---- include shares the caller's scope, arguments and the bound variable are block-scoped around
+# ---- it) and a bound array multiplies the iteration product (C06)
+
+INCLUDENODE = "liquid.builtin.tags.include_tag:IncludeNode"
+
+
+def include_node_contract(prop, sfx, bound, replay_code):
+    from pyvc.contract import contract
+    from pyvc.exec import Obligation
+
+    @contract(INCLUDENODE + ".render_to_output" + sfx, prop=prop, name=f"IncludeNode.render_to_output{sfx}[bound variable: {bound}]")
+    def inc(c):
+        EXP = "liquid.expression:Expression"
+        env = mk_env(c)
+        c.requires(c.st.deref(env).fields["context_depth_limit"].t >= 8, "context depth limit not reached")
+        caller = mk_ctx(c, env, loops=c.st.alloc(HList(items=[])))
+        tmpl = c.obj(TEMPLATE, "partial_template", name=c.str("partial_name"), env=env)
+        name_expr = c.obj(EXP, "name_expr", __value__=c.str("name_text"), token=NONE)
+        argv = c.any("argument_value")
+        argname = c.str("argument_name")
+        arg = c.obj("liquid.builtin.expressions.arguments:KeywordArgument", "kwarg", name=argname, value=c.obj(EXP, "argument_expr", __value__=argv, token=NONE), token=NONE)
+        items = [c.any("item0"), c.any("item1")]
+        if bound == "array":
+            val = c.st.alloc(HList(items=list(items)))
+        elif bound == "scalar":
+            val = c.any("bound_value")
+            c.requires(z3.Not(U.is_ref(val.t)), "a bound value that is not array-like")
+        else:
+            val = None
+        var = c.obj(EXP, "bound_expr", __value__=val, token=NONE) if val is not None else NONE
+        alias = c.str("alias")
+        c.requires(z3.And(z3.Length(alias.t) > 0, alias.t != argname.t), "an alias is given, distinct from the argument name")
+        self = c.obj(INCLUDENODE, "include", name=name_expr, var=var, alias=alias, args=c.st.alloc(HList(items=[arg])), token=NONE, tag=const("include"))
+        evx = lambda eng, st, a, k: [(st, st.deref(a[0]).fields["__value__"])]  # noqa: E731
+        c.summary(EXP + ".evaluate", evx)
+        c.summary(EXP + ".evaluate_async", evx)
+        c.summary(ENV + ".get_template" + sfx, lambda eng, st, a, k: [(st, tmpl)])
+        scope = c.st.deref(caller).fields["scope"]
+        maps0 = list(c.st.deref(c.st.deref(scope).fields["_maps"]).items)
+        Lm = c.st.deref(env).fields["loop_iteration_limit"].t
+        limited = U.is_int(Lm)
+        carry = c.st.deref(caller).fields["loop_iteration_carry"].t
+
+        def measure(st):
+            f = st.deref(caller).fields
+            acc = f["loop_iteration_carry"].t
+            for x in st.deref(f["loops"]).items:
+                acc = acc * (st.deref(x).fields["length"].t if isinstance(x, VRef) else x.t)
+            return acc
+
+        def render_with_context(eng, st, a, k):
+            maps = st.deref(st.deref(scope).fields["_maps"]).items
+            st.log.append(("render", a[0], a[1], dict(k), len(maps), maps[0]))
+            ns = maps[0]
+            got_arg = eng.get_item(st.fork(), ns, argname)
+            ok_arg = z3.And(*[box(v) == argv.t for _s, v in got_arg if not isinstance(v, Raised)]) if got_arg and not any(isinstance(v, Raised) for _s, v in got_arg) else z3.BoolVal(False)
+            eng.obligations.append(Obligation("callee-pre", "partial-render:the-arguments-are-bound-in-the-innermost-scope-of-the-callers-context", list(st.pc), z3.And(z3.BoolVal(len(maps) == len(maps0) + 1), ok_arg), "IncludeNode"))
+            if bound == "array":
+                eng.obligations.append(Obligation("callee-pre", "partial-render:iteration-product-is-the-callers-product-times-the-array-length-and-within-the-limit", list(st.pc),
+                                                  z3.And(measure(st) == carry * 2, z3.Implies(limited, carry * 2 <= U.i(Lm))), "IncludeNode bound array"))
+            return [(st, VInt(z3.Int(f"chars_{len(st.log)}")))]
+        c.summary(TEMPLATE + ".render_with_context" + sfx, render_with_context)
+        c.call(caller, c.obj("io:StringIO", "buffer", __text__=c.str("out")), self_val=self)
+
+        def post(r):
+            renders = [e for e in r.st.log if e[0] == "render"]
+            n_want = 2 if bound == "array" else 1
+            ok = len(renders) == n_want and all(e[1] == tmpl and e[2] == caller and concrete(e[3].get("partial")) == (True, True) and "block_scope" not in e[3] for e in renders)
+            restored = r.st.deref(r.st.deref(scope).fields["_maps"]).items == maps0
+            return z3.BoolVal(bool(ok and restored))
+        c.ensures("the-included-template-renders-in-the-callers-own-context-and-the-argument-scope-is-removed-afterwards", post)
+        c.ensures("the-iteration-product-is-restored", lambda r: measure(r.st) == carry)
+        c.raises("LoopIterationLimitError", "TemplateNotFoundError", "ContextDepthError")
+        if bound == "array":
+            c.ensures_exc("limit-error-exactly-when-the-array-would-exceed-the-limit", lambda r: z3.Implies(z3.BoolVal(r.exc.cls == "LoopIterationLimitError"), z3.And(limited, carry * 2 > U.i(Lm))))
+            c.assume_note("BOUNDED in the array length only: a bound array with a spine of 2 arbitrary items")
+        c.assume_note("context.extend and context.iterations are executed from their real source; the included template's body is an arbitrary callee")
+        c.replay("code", code=replay_code())
+    return inc
